@@ -13,8 +13,11 @@ from .models_sha import SliceIter
 
 @dataclass(frozen=True)
 class BufRd:
-    """BufReader<&mut T>: just the reference to the underlying stream (no read-ahead is observable through read_until/read_exact)."""
+    """BufReader<&mut T>: the reference to the underlying stream plus the read-ahead: `buf_end` is the absolute offset up to which
+    bytes have been taken from the stream into the buffer (the logical position stays in the NetStream). A fill takes what ONE read
+    of the raw stream returns, i.e. up to the next offset in NetStream.cuts (messages are < 8 KiB, the buffer capacity)."""
     inner: object
+    buf_end: int = 0
 
 
 @dataclass(frozen=True)
@@ -44,20 +47,47 @@ def make_models():
 
     def stream_of(ex, st, rd_ref):
         """reader reference -> reference to the NetStream cell"""
+        return rd_of(ex, st, rd_ref)[1]
+
+    def rd_of(ex, st, rd_ref):
+        """reader reference -> (reference to the BufRd cell | None, reference to the NetStream cell)"""
         r = ref_to(ex, st, rd_ref)
         v = ex.deref(r, st)
         if isinstance(v, BufRd):
-            return ref_to(ex, st, v.inner)
+            return r, ref_to(ex, st, v.inner)
         if isinstance(v, NetStream):
-            return r
+            return None, r
         raise ExecError("not a reader: %r" % (v,))
+
+    def boundary_after(s, j):
+        """end of the raw read that delivers byte j"""
+        for c in s.cuts:
+            if c > j:
+                return min(c, len(s.inp))
+        return len(s.inp)
+
+    def buf_end_of(ex, st, bref, s):
+        if bref is None:
+            return s.pos
+        return max(ex.deref(bref, st).buf_end, s.pos)
+
+    def set_buf_end(ex, st2, bref, be):
+        if bref is not None:
+            b = ex.deref(bref, st2)
+            if b.buf_end != be:
+                ex.write_ref(st2, bref, replace(b, buf_end=be))
+
+    def after_consuming(s, be, last):
+        """read-ahead after the reader has delivered bytes up to index `last` (inclusive) to its caller"""
+        return be if last < be else boundary_after(s, last)
 
     def m_bufreader_new(ex, st, args, dest_ty, fname):
         return BufRd(args[0])
 
     def m_read_until(ex, st, args, dest_ty, fname):
-        sref = stream_of(ex, st, args[0])
+        bref, sref = rd_of(ex, st, args[0])
         s = ex.deref(sref, st)
+        be = buf_end_of(ex, st, bref, s)
         delim = args[1]
         vref = ref_to(ex, st, args[2])
         vec = ex.deref(vref, st)
@@ -70,6 +100,7 @@ def make_models():
                 st2 = state_copy(ex, st)
                 ex.write_ref(st2, vref, VecM(tuple(vec.items) + tuple(s.inp[s.pos:j + 1])))
                 ex.write_ref(st2, sref, replace(s, pos=j + 1))
+                set_buf_end(ex, st2, bref, after_consuming(s, be, j))
                 cases.append((cond, enum("Ok", j + 1 - s.pos), heap_of(st2)))
             none_before = _simp(b_and(none_before, b_not(hit)))
             if none_before is False:
@@ -79,22 +110,71 @@ def make_models():
             st2 = state_copy(ex, st)
             ex.write_ref(st2, vref, VecM(tuple(vec.items) + tuple(s.inp[s.pos:])))
             ex.write_ref(st2, sref, replace(s, pos=len(s.inp)))
+            set_buf_end(ex, st2, bref, len(s.inp))
             cases.append((none_before, enum("Ok", len(s.inp) - s.pos), heap_of(st2)))
         return ("__with_heap__", cases)
 
     def m_read_exact(ex, st, args, dest_ty, fname):
-        sref = stream_of(ex, st, args[0])
+        bref, sref = rd_of(ex, st, args[0])
         s = ex.deref(sref, st)
-        bref = ref_to(ex, st, args[1])
-        buf = ex.deref(bref, st)
+        be = buf_end_of(ex, st, bref, s)
+        bufref = ref_to(ex, st, args[1])
+        buf = ex.deref(bufref, st)
         n = len(ex.elements(buf))
         if s.pos + n > len(s.inp):
             ex.write_ref(st, sref, replace(s, pos=len(s.inp)))
+            set_buf_end(ex, st, bref, len(s.inp))
             return enum("Err", ("opaque", "io::Error:UnexpectedEof"))
         data = s.inp[s.pos:s.pos + n]
-        ex.write_ref(st, bref, buf.with_elements(tuple(data)) if hasattr(buf, "with_elements") else ("agg", tuple(data)))
+        ex.write_ref(st, bufref, buf.with_elements(tuple(data)) if hasattr(buf, "with_elements") else ("agg", tuple(data)))
         ex.write_ref(st, sref, replace(s, pos=s.pos + n))
+        if n:
+            set_buf_end(ex, st, bref, after_consuming(s, be, s.pos + n - 1))
         return enum("Ok", UNIT)
+
+    def m_read(ex, st, args, dest_ty, fname):
+        """Read::read on the raw stream or on a BufReader: ONE read — what is buffered, else what the next raw read delivers."""
+        bref, sref = rd_of(ex, st, args[0])
+        s = ex.deref(sref, st)
+        be = buf_end_of(ex, st, bref, s)
+        bufref = ref_to(ex, st, args[1])
+        buf = ex.deref(bufref, st)
+        items = list(ex.elements(buf))
+        n = len(items)
+        if n == 0 or s.pos >= len(s.inp):
+            return enum("Ok", 0)
+        avail_end = be if be > s.pos else boundary_after(s, s.pos)
+        k = min(n, avail_end - s.pos)
+        items[:k] = s.inp[s.pos:s.pos + k]
+        ex.write_ref(st, bufref, buf.with_elements(tuple(items)) if hasattr(buf, "with_elements") else ("agg", tuple(items)))
+        ex.write_ref(st, sref, replace(s, pos=s.pos + k))
+        set_buf_end(ex, st, bref, max(avail_end, s.pos + k) if bref is not None else s.pos + k)
+        return enum("Ok", k)
+
+    def m_buffer(ex, st, args, dest_ty, fname):
+        bref, sref = rd_of(ex, st, args[0])
+        s = ex.deref(sref, st)
+        be = buf_end_of(ex, st, bref, s)
+        return ("refval", VecM(tuple(s.inp[s.pos:be])))
+
+    def m_fill_buf(ex, st, args, dest_ty, fname):
+        bref, sref = rd_of(ex, st, args[0])
+        s = ex.deref(sref, st)
+        be = buf_end_of(ex, st, bref, s)
+        if be <= s.pos and s.pos < len(s.inp):
+            be = boundary_after(s, s.pos)
+            set_buf_end(ex, st, bref, be)
+        return enum("Ok", ("refval", VecM(tuple(s.inp[s.pos:be]))))
+
+    def m_consume(ex, st, args, dest_ty, fname):
+        bref, sref = rd_of(ex, st, args[0])
+        s = ex.deref(sref, st)
+        be = buf_end_of(ex, st, bref, s)
+        n = args[1]
+        if is_sym(n):
+            raise ExecError("BufReader::consume with a symbolic amount")
+        ex.write_ref(st, sref, replace(s, pos=min(s.pos + n, be)))
+        return UNIT
 
     def m_by_ref(ex, st, args, dest_ty, fname):
         return args[0]
@@ -107,8 +187,9 @@ def make_models():
         from .models_ws import TakeRd
         tref = ref_to(ex, st, args[0])
         t = ex.deref(tref, st)
-        sref = stream_of(ex, st, t.inner)
+        bref, sref = rd_of(ex, st, t.inner)
         s = ex.deref(sref, st)
+        be = buf_end_of(ex, st, bref, s)
         vref = ref_to(ex, st, args[1])
         vec = ex.deref(vref, st)
         lim = t.limit
@@ -116,6 +197,8 @@ def make_models():
         def do(n, st2):
             ex.write_ref(st2, vref, VecM(tuple(vec.items) + tuple(s.inp[s.pos:s.pos + n])))
             ex.write_ref(st2, sref, replace(s, pos=s.pos + n))
+            if n:
+                set_buf_end(ex, st2, bref, after_consuming(s, be, s.pos + n - 1))
         if not is_sym(lim):
             n = min(lim, remaining)
             do(n, st)
@@ -133,6 +216,85 @@ def make_models():
             do(remaining, st2)
             cases.append((c, enum("Ok", remaining), heap_of(st2)))
         return ("__with_heap__", cases)
+
+    # ---- byte slices ----------------------------------------------------------------------------------------------
+    def m_slice_len(ex, st, args, dest_ty, fname):
+        return len(elems(ex, st, args[0]))
+
+    def m_slice_index_range(kind):
+        def f(ex, st, args, dest_ty, fname):
+            items = elems(ex, st, args[0])
+            n = len(items)
+            r = args[1][1]
+            a, b = (0, r[0]) if kind == "to" else (r[0], n) if kind == "from" else (r[0], r[1])
+            cases = []
+            bad = True
+            for i in range(n + 1):
+                for j in range(i, n + 1):
+                    cond = _simp(b_and(a == i if is_sym(a) else a == i, b == j if is_sym(b) else b == j))
+                    if cond is False:
+                        continue
+                    if cond is True:
+                        return ("refval", VecM(tuple(items[i:j])))
+                    if ex.ctx.feasible(st.pc, z3bool(cond)):
+                        cases.append((cond, ("refval", VecM(tuple(items[i:j])))))
+                    bad = b_and(bad, b_not(cond))
+            bad = _simp(bad)
+            if bad is not False:
+                cases.append((bad, Panic("range out of bounds in a byte slice index")))
+            return cases
+        return f
+
+    def m_slice_to_vec(ex, st, args, dest_ty, fname):
+        return VecM(tuple(elems(ex, st, args[0])))
+
+    def m_ord_min(ex, st, args, dest_ty, fname):
+        a, b = args[0], args[1]
+        if is_sym(a) or is_sym(b):
+            return z3.If(a <= b, a, b)
+        return min(a, b)
+
+    def m_ord_max(ex, st, args, dest_ty, fname):
+        a, b = args[0], args[1]
+        if is_sym(a) or is_sym(b):
+            return z3.If(a >= b, a, b)
+        return max(a, b)
+
+    def m_vec_eq_arr(neg):
+        def f(ex, st, args, dest_ty, fname):
+            def items(v):
+                x = deref_all(ex, st, v)
+                return tuple(str_chars(x)) if isinstance(x, (ConcStr, SymStr)) else tuple(ex.elements(x))
+            a, b = items(args[0]), items(args[1])
+            if len(a) != len(b):
+                r = False
+            else:
+                r = True
+                for x, y in zip(a, b):
+                    r = b_and(r, _simp(x == y) if (is_sym(x) or is_sym(y)) else (x == y))
+            r = _simp(r) if is_sym(r) else r
+            return b_not(r) if neg else r
+        return f
+
+    def m_vec_clear(ex, st, args, dest_ty, fname):
+        vref = ref_to(ex, st, args[0])
+        ex.write_ref(st, vref, VecM(()))
+        return UNIT
+
+    def m_vec_truncate(ex, st, args, dest_ty, fname):
+        vref = ref_to(ex, st, args[0])
+        vec = ex.deref(vref, st)
+        n = args[1]
+        if is_sym(n):
+            raise ExecError("Vec::truncate with a symbolic length")
+        ex.write_ref(st, vref, VecM(tuple(vec.items[:n])))
+        return UNIT
+
+    def m_extend_from_slice(ex, st, args, dest_ty, fname):
+        vref = ref_to(ex, st, args[0])
+        vec = ex.deref(vref, st)
+        ex.write_ref(st, vref, VecM(tuple(vec.items) + tuple(elems(ex, st, args[1]))))
+        return UNIT
 
     def m_vec_len(ex, st, args, dest_ty, fname):
         return len(elems(ex, st, args[0]))
@@ -789,10 +951,27 @@ def make_models():
         M(r"^<BufReader<(&mut )?T> as BufRead>::read_until$", m_read_until),
         M(r"^<BufReader<(&mut )?T> as std::io::Read>::read_exact$", m_read_exact),
         M(r"^<T as std::io::Read>::read_exact$", m_read_exact),
+        M(r"^<(BufReader<(&mut )?T>|T) as std::io::Read>::read$", m_read),
+        M(r"^BufReader::<(&mut )?T>::buffer$", m_buffer),
+        M(r"^<BufReader<(&mut )?T> as BufRead>::fill_buf$", m_fill_buf),
+        M(r"^<BufReader<(&mut )?T> as BufRead>::consume$", m_consume),
         M(r"^<.* as std::io::Read>::by_ref$", m_by_ref),
         M(r"^<.* as std::io::Read>::take$", m_take),
         M(r"^<std::io::Take<.*> as std::io::Read>::read_to_end$", m_take_read_to_end),
         M(r"^Vec::<u8>::len$", m_vec_len),
+        M(r"^core::slice::<impl \[u8\]>::len$", m_slice_len),
+        M(r"^<(\[u8\]|Vec<u8>) as Index<RangeTo<usize>>>::index$", m_slice_index_range("to")),
+        M(r"^<(\[u8\]|Vec<u8>) as Index<(std::ops::)?RangeFrom<usize>>>::index$", m_slice_index_range("from")),
+        M(r"^<(\[u8\]|Vec<u8>) as Index<(std::ops::)?Range<usize>>>::index$", m_slice_index_range("range")),
+        M(r"^(core::|std::|alloc::)?slice::<impl \[u8\]>::to_vec$", m_slice_to_vec),
+        M(r"^<usize as Ord>::min$", m_ord_min),
+        M(r"^(std|core)::cmp::min::<usize>$", m_ord_min),
+        M(r"^<usize as Ord>::max$", m_ord_max),
+        M(r"^<(Vec<u8>|\[u8\]|&\[u8\]|\[u8; \d+\]) as PartialEq<(&?\[u8; \d+\]|&?\[u8\]|Vec<u8>)>>::eq$", m_vec_eq_arr(False)),
+        M(r"^<(Vec<u8>|\[u8\]|&\[u8\]|\[u8; \d+\]) as PartialEq<(&?\[u8; \d+\]|&?\[u8\]|Vec<u8>)>>::ne$", m_vec_eq_arr(True)),
+        M(r"^Vec::<u8>::extend_from_slice$", m_extend_from_slice),
+        M(r"^Vec::<u8>::clear$", m_vec_clear),
+        M(r"^Vec::<u8>::truncate$", m_vec_truncate),
         M(r"^(std::str::|core::str::)?from_utf8$", m_from_utf8),
         M(r"^String::from_utf8$", m_from_utf8),
         M(r"^Vec::<u8>::insert$", m_vec_insert),
@@ -847,6 +1026,7 @@ def make_models():
         M(r"^Option::<&str>::unwrap_or$", m_opt_unwrap_or),
         M(r"^Result::<.*>::map_err::<RequestError, ", m_map_err),
         M(r"^Option::<&Header>::map::<&str, ", m_opt_map),
+        M(r"^Option::<(usize|u8|u16|u64|\(\))>::map::<", m_opt_map),
         M(r"^<impl HeaderLike as HeaderLike>::to_header$", m_to_header),
         M(r"^<&HeaderType as HeaderLike>::to_header$", m_to_header),
         M(r"^core::slice::<impl \[Header\]>::iter$", m_slice_iter),
